@@ -60,7 +60,10 @@ fn tanh<T: Dom>(k: usize) {
 /// Tanh on concrete child outputs spanning many magnitudes: the reported value must be exactly libm's tanh of it
 /// (complements the symbolic obligation above, where tanh is uninterpreted)
 fn tanh_magnitudes<T: Dom>() {
-    let vals: Vec<f64> = vec![0.0, 1e-300, 1e-30, 3.3000000000000005e-10, 1e-9, 1.3e-8, 1.4e-8, 1.489934220444411e-8, 1.49e-8, 2e-8, 1e-7, 1e-5, 3.4e-4, 1e-3, 0.1, 0.5, 1.0, 5.0, 20.0, 100.0];
+    // magnitudes from 1e-300 to 1e2: a mantissa grid per decade, the integers and halves up to 45 (where tanh saturates), and a few hand-picked values
+    let mut vals: Vec<f64> = vec![0.0, 1e-300, 1e-100, 1e-30, 3.3000000000000005e-10, 1.489934220444411e-8, 7.9712, 9.0109, 18.0218, 19.0615];
+    for e in -16..=2 { for m in [1.0, 1.3, 1.4, 1.49, 1.5, 2.0, 2.5, 3.3, 4.0, 5.0, 6.0, 7.0, 7.97, 8.0, 9.0] { vals.push(m * 10f64.powi(e)); } }
+    for i in 1..=90 { vals.push(i as f64 * 0.5); vals.push(i as f64 * 0.5 + 0.25); }
     let mut all: Vec<f64> = vals.clone(); all.extend(vals.iter().map(|v| -v));
     let s: Vec<Option<T>> = all.iter().map(|v| Some(T::c(*v))).collect();
     let mut v = Tanh::new(Script::new(s.clone()));
